@@ -74,6 +74,15 @@ class SymInt:
     def _cmp(self, o, op):
         l = SymInt._lift(o)
         if l is None:
+            if isinstance(o, (float, np.floating)) and float(o) == float(o):
+                # integer vs real constant: k < x <=> k < ceil(x) etc.
+                import math as _m
+                f = float(o)
+                lo, hi = _m.floor(f), _m.ceil(f)
+                a = self.e
+                e = {"lt": a < hi, "le": a <= lo, "gt": a > lo, "ge": a >= hi,
+                     "eq": (a == lo) if lo == hi else z3.BoolVal(False)}[op]
+                return SymBool(e, self.vs, False)
             return NotImplemented
         a, b = self.e, l[0]
         e = {"lt": a < b, "le": a <= b, "gt": a > b, "ge": a >= b, "eq": a == b}[op]
